@@ -25,7 +25,7 @@ try:
     root = wt + ".root"
     os.makedirs(root, exist_ok=True)
     shutil.copy("/verif/known_findings.json", root)
-    env = dict(os.environ, VERIF_OVERLAY=ovf, VERIF_ROOT=root)
+    env = dict(os.environ, VERIF_OVERLAY=ovf, VERIF_OUT_ROOT=root)
     r = subprocess.run(["/verif/run.sh", cid, tier], env=env, capture_output=True); r.stdout = r.stdout.decode("utf-8", "replace")
     out = r.stdout
     sigs = {}
